@@ -67,10 +67,11 @@ RECURSIVE RuleFrom(_, _, _, _, _)
 RuleFrom(gg, c, i, rules, dry) ==
   IF i > Len(gg.stmts) THEN c
   ELSE LET s == gg.stmts[i] IN
-       RuleFrom(gg, IF ~s.phony /\ ("r" \o ToString(s.id)) \in rules THEN RmSeq(c, StmtFiles(s), 1, dry) ELSE c, i + 1, rules, dry)
+       RuleFrom(gg, IF ~s.phony /\ ("r" \o ToString(s.id)) \in rules THEN RmSeq(c, StmtFiles(s), 1, dry) ELSE c, i + 1, rules, dry)     \* (phony statements are skipped: a36984f)
 
 \* Cleaner::CleanDead over the paths recorded in the build log
-DeadPaths(gg, logged) == {p \in logged : Prod(gg, p) = 0 /\ ~\E i \in DOMAIN gg.stmts : p \in ManIn(gg.stmts[i]) \cup ToS(gg.stmts[i].oo)}
+\* no in-edge, no out-edges, no validation out-edges (810add2)
+DeadPaths(gg, logged) == {p \in logged : Prod(gg, p) = 0 /\ ~\E i \in DOMAIN gg.stmts : p \in ManIn(gg.stmts[i]) \cup ToS(gg.stmts[i].oo) \cup ToS(gg.stmts[i].val)}
 RECURSIVE RmSet(_, _, _)
 RmSet(c, S, dry) == IF S = {} THEN c ELSE LET p == CHOOSE x \in S : TRUE IN RmSet(Rm(c, p, dry), S \ {p}, dry)
 
@@ -85,12 +86,13 @@ ImplClean(g0, ex, ev, logged) ==
 \* ---- model checking: Impl against CleanRef -------------------------------------------------------
 RawGraphs == ndJsonDeserialize(IF "GRAPHS" \in DOMAIN IOEnv THEN IOEnv.GRAPHS ELSE "graphs.ndjson")
 Deco(gr) == [gr EXCEPT !.stmts = [i \in DOMAIN gr.stmts |-> gr.stmts[i] @@ [rsppath |-> gr.stmts[i].outs[1] \o ".rsp", en |-> "e", vstr |-> "v1", rsptxt |-> "", ddtxt |-> ""]]]
-FilesOf(gg) == ToS(gg.srcs) \cup UNION {EdgeFiles(gg, i) : i \in DOMAIN gg.stmts}
+FilesOf(gg) == ToS(gg.srcs) \cup UNION {EdgeFiles(gg, i) : i \in DOMAIN gg.stmts} \cup UNION {ToS(gg.stmts[i].val) : i \in DOMAIN gg.stmts}
 Ops(gg) ==
   {[mode |-> "all", args |-> <<>>, gflag |-> gf, n |-> n] : gf \in BOOLEAN, n \in BOOLEAN}
   \cup {[mode |-> "targets", args |-> <<t>>, gflag |-> FALSE, n |-> n] : t \in UNION {ToS(gg.stmts[i].outs) \cup ToS(gg.stmts[i].iouts) : i \in DOMAIN gg.stmts}, n \in BOOLEAN}
   \cup {[mode |-> "targets", args |-> SetToSeq(UNION {ToS(gg.stmts[i].outs) : i \in DOMAIN gg.stmts}), gflag |-> FALSE, n |-> FALSE]}
   \cup {[mode |-> "rules", args |-> <<"r" \o ToString(i)>>, gflag |-> FALSE, n |-> n] : i \in DOMAIN gg.stmts, n \in BOOLEAN}
+  \cup {[mode |-> "rules", args |-> <<"phony">>, gflag |-> FALSE, n |-> n] : n \in BOOLEAN}
   \cup {[mode |-> "dead", args |-> <<>>, gflag |-> FALSE, n |-> n] : n \in BOOLEAN}
 
 VARIABLES gr, ex, logged, ev
@@ -98,7 +100,9 @@ vars == <<gr, ex, logged, ev>>
 Init == /\ gr \in {Deco(RawGraphs[k]) : k \in DOMAIN RawGraphs}
         /\ ex \in {ToS(gr.srcs) \cup X : X \in SUBSET (FilesOf(gr) \ ToS(gr.srcs))}
         \* the build log knows some outputs and, possibly, a path that no statement mentions any more (on disk or not)
-        /\ logged \in {L \cup D : L \in {{}, AllOuts(gr)}, D \in {{}, {"gone"}}}
+        \* (and files that are validation targets without a statement of their own: outputs of a statement that was dropped)
+        /\ logged \in {L \cup D \cup V : L \in {{}, AllOuts(gr)}, D \in {{}, {"gone"}},
+                                        V \in {{}, {v \in UNION {ToS(gr.stmts[i].val) : i \in DOMAIN gr.stmts} : Prod(gr, v) = 0}}}
         /\ ev \in Ops(gr)
 Next == UNCHANGED vars
 Spec == Init /\ [][Next]_vars
